@@ -103,10 +103,18 @@ func init() {
 		x.funcsUsed["lib:go-digest Algorithm.Hash returns a non-nil hash for a registered algorithm (panics otherwise: callers must pass validated digests)"] = true
 		return h, true
 	}
+	libTable["crypto/rand.Read"] = func(x *Exec, fr *Frame, st *State, cc *ssa.CallCommon, a []Val) (Val, bool) {
+		x.te.SortOf(cc.Args[0].Type())
+		x.funcsUsed["lib:crypto/rand.Read never fails (documented: it never returns an error on supported platforms)"] = true
+		return Val{Tup: []Val{{T: sliceLen(a[0].T), Typ: intT}, {T: NilIface, Typ: errT}}}, true
+	}
 	libTable["io.ReadAll"] = func(x *Exec, fr *Frame, st *State, cc *ssa.CallCommon, a []Val) (Val, bool) {
 		T := cc.Signature().Results().At(0).Type()
 		data := x.freshVal(st, "readall", T)
-		return Val{Tup: []Val{data, x.freshVal(st, "readall_err", errT)}}, true
+		e := x.freshVal(st, "readall_err", errT)
+		// io.ReadAll never returns a nil slice
+		st.assume(Not(sliceNil(data.T)))
+		return Val{Tup: []Val{data, e}}, true
 	}
 	libTable["io.LimitReader"] = func(x *Exec, fr *Frame, st *State, cc *ssa.CallCommon, a []Val) (Val, bool) {
 		r := x.freshVal(st, "limitreader", cc.Signature().Results().At(0).Type())
